@@ -2261,8 +2261,13 @@ class Power(Array):
             return
         func = self.func
         newpower = multiply(self.power, n)
-        if iszero(self.power % astype(2, self.power.dtype)) and not iszero(newpower % astype(2, newpower.dtype)):
-            func = abs(func)
+        p = self.power._const_uniform
+        if p is None:
+            return # parity of the inner power is unknown
+        if p % 2 == 0:
+            q = newpower.simplified._const_uniform
+            if q is None or q % 2 != 0:
+                func = abs(func)
         return Power(func, newpower)
 
     def _takediag(self, axis1, axis2):
